@@ -17,6 +17,26 @@ import DateutilVerif.Proofs.RRuleMinutelyBy
 import DateutilVerif.Proofs.RRuleDailyW
 import DateutilVerif.Proofs.RRuleMonthlyW
 import DateutilVerif.Proofs.RRuleMinutelyBH
+import DateutilVerif.Proofs.RRuleSecondlyBS
+import DateutilVerif.Proofs.RRuleMinutelyBHM
+import DateutilVerif.Proofs.RRuleWeeklyW
+import DateutilVerif.Proofs.RRuleMonthlyE
+import DateutilVerif.Proofs.RRuleNthWYearly
+import DateutilVerif.Proofs.RRuleNthWYM
+import DateutilVerif.Proofs.RRuleNthEYearly
+import DateutilVerif.Proofs.RRuleNthEYM
+import DateutilVerif.Proofs.RRuleWeeknoEYearly
+import DateutilVerif.Proofs.RRuleWeeklyE
+import DateutilVerif.Proofs.RRuleEDaily
+import DateutilVerif.Proofs.RRuleEHourly
+import DateutilVerif.Proofs.RRuleEHourlyBy
+import DateutilVerif.Proofs.RRuleEMinutely
+import DateutilVerif.Proofs.RRuleEMinutelyBy
+import DateutilVerif.Proofs.RRuleEMinutelyBH
+import DateutilVerif.Proofs.RRuleEMinutelyBHM
+import DateutilVerif.Proofs.RRuleESecondly
+import DateutilVerif.Proofs.RRuleESecondlyBHM
+import DateutilVerif.Proofs.RRuleESecondlyBS
 
 namespace RRule
 open Cal
@@ -38,6 +58,17 @@ theorem wArgOk_elim (h : wArgOk a) : WArg a := by
   · exact Or.inl h
   · obtain ⟨wl, hwl, hne, hok⟩ := someWith_elim h1
     exact Or.inr ⟨wl, hwl, hne, ⟨hok.1, hok.2⟩, h2, h3⟩
+
+theorem optNonempty_elim {o : Option (List Int)} (h : optNonempty o) : o = none ∨ ∃ l, o = some l ∧ l ≠ [] := by
+  rcases h with h | h
+  · exact Or.inl h
+  · obtain ⟨l, hl, hne, _⟩ := someWith_elim h
+    exact Or.inr ⟨l, hl, hne⟩
+
+theorem ne_none_elim {α} {o : Option α} (h : o ≠ none) : ∃ l, o = some l := by
+  cases o with
+  | none => exact absurd rfl h
+  | some l => exact ⟨l, rfl⟩
 
 theorem family_sound (f : Family) (h : family a = some f) : SupportedBy a f := by
   unfold family at h
@@ -90,6 +121,11 @@ theorem iter_eq_spec_supported (a : Args) (r : Rule) (h : construct a = .ok r) (
     obtain ⟨wl, hwl, hne, hok⟩ := someWith_elim h4
     exact ⟨n, by omega, by simp [Family.periodsPerTurn],
       iter_eq_spec_monthly_weekno ⟨hf, hi, hv, h3, hz, h1, h2, ⟨wl, hwl, hne, ⟨hok.1, hok.2⟩⟩⟩ h n hr⟩
+  | weeklyWeekno =>
+    obtain ⟨hf, ⟨hi, hv, hz⟩, h1, h2, h3, h4, h5⟩ := hs
+    obtain ⟨wl, hwl, hne, hok⟩ := someWith_elim h2
+    exact ⟨n, by omega, by simp [Family.periodsPerTurn],
+      iter_eq_spec_weekly_weekno ⟨hf, hi, hv, h1, hz, ⟨wl, hwl, hne, ⟨hok.1, hok.2⟩⟩, h3, h4, untilOk_elim h5⟩ h n hr⟩
   | hourly =>
     obtain ⟨hf, ⟨hi, hv, hz⟩, h1, h2, h3, h4, h5⟩ := hs
     exact iter_eq_spec_hourly ⟨hf, hi, hv, wArgOk_elim h1, h2, hz, h3, h4, h5⟩ h n hr
@@ -108,8 +144,106 @@ theorem iter_eq_spec_supported (a : Args) (r : Rule) (h : construct a = .ok r) (
     obtain ⟨hf, ⟨hi, hv, hz⟩, h1, h2, h3, h4, h5, h6⟩ := hs
     obtain ⟨l, hl, hne, _⟩ := someWith_elim h3
     exact iter_eq_spec_minutely_byhour ⟨hf, hi, hv, wArgOk_elim h1, h2, hz, ⟨l, hl, hne⟩, h4, h5, h6⟩ h n hr
+  | minutelyByhm =>
+    obtain ⟨hf, ⟨hi, hv, hz⟩, h1, h2, h3, h4, h5, h6⟩ := hs
+    have hm4 : ∃ l, a.byminute = some l := by
+      cases hb : a.byminute with
+      | none => exact absurd hb h4
+      | some l => exact ⟨l, rfl⟩
+    exact iter_eq_spec_minutely_bhm ⟨hf, hi, hv, wArgOk_elim h1, h2, hz, optNonempty_elim h3, hm4, h5, h6⟩ h n hr
   | secondly =>
     obtain ⟨hf, ⟨hi, hv, hz⟩, h1, h2, h3, h4, h5⟩ := hs
     exact iter_eq_spec_secondly ⟨hf, hi, hv, wArgOk_elim h1, h2, hz, h3, h4, h5⟩ h n hr
+  | secondlyByhm =>
+    obtain ⟨hf, ⟨hi, hv, hz⟩, h1, h2, h3, h4, h5, h6⟩ := hs
+    exact iter_eq_spec_secondly_bhm ⟨hf, hi, hv, wArgOk_elim h1, h2, hz, optNonempty_elim h3, optNonempty_elim h4, h5, h6⟩ h n hr
+  | secondlyBysecond =>
+    obtain ⟨hf, ⟨hi, hv, hz⟩, h1, h2, h3, h4, h5, h6⟩ := hs
+    have hs5 : ∃ l, a.bysecond = some l := by
+      cases hb : a.bysecond with
+      | none => exact absurd hb h5
+      | some l => exact ⟨l, rfl⟩
+    exact iter_eq_spec_secondly_bysecond ⟨hf, hi, hv, wArgOk_elim h1, h2, hz, optNonempty_elim h3, optNonempty_elim h4, hs5, h6⟩ h n hr
+
+  | dailyE =>
+    obtain ⟨hf, ⟨⟨hi, hv, hz⟩, hw, he⟩⟩ := hs
+    exact ⟨n, by omega, by simp [Family.periodsPerTurn],
+      iter_eq_spec_daily_easter ⟨hf, hi, hv, hw, hz, someWith_elim he⟩ h n hr.1 hr.2⟩
+  | hourlyE =>
+    obtain ⟨hf, ⟨⟨hi, hv, hz⟩, hw, he⟩, h3, h4, h5⟩ := hs
+    exact iter_eq_spec_hourly_easter ⟨hf, hi, hv, hw, someWith_elim he, hz, h3, h4, h5⟩ h n hr.1 hr.2
+  | hourlyByhourE =>
+    obtain ⟨hf, ⟨⟨hi, hv, hz⟩, hw, he⟩, h3, h4, h5⟩ := hs
+    obtain ⟨l, hl, _, hlr⟩ := someWith_elim h3
+    exact iter_eq_spec_hourly_byhour_easter ⟨hf, hi, hv, hw, someWith_elim he, hz, ⟨l, hl, hlr⟩, h4, h5⟩ h n hr.1 hr.2
+  | minutelyE =>
+    obtain ⟨hf, ⟨⟨hi, hv, hz⟩, hw, he⟩, h3, h4, h5⟩ := hs
+    exact iter_eq_spec_minutely_easter ⟨hf, hi, hv, hw, someWith_elim he, hz, h3, h4, h5⟩ h n hr.1 hr.2
+  | minutelyByminuteE =>
+    obtain ⟨hf, ⟨⟨hi, hv, hz⟩, hw, he⟩, h3, h4, h5⟩ := hs
+    obtain ⟨l, hl, _, hlr⟩ := someWith_elim h4
+    exact iter_eq_spec_minutely_byminute_easter ⟨hf, hi, hv, hw, someWith_elim he, hz, h3, ⟨l, hl, hlr⟩, h5⟩ h n hr.1 hr.2
+  | minutelyByhourE =>
+    obtain ⟨hf, ⟨⟨hi, hv, hz⟩, hw, he⟩, h3, h4, h5, h6⟩ := hs
+    obtain ⟨l, hl, hne, _⟩ := someWith_elim h3
+    exact iter_eq_spec_minutely_byhour_easter ⟨hf, hi, hv, hw, someWith_elim he, hz, ⟨l, hl, hne⟩, h4, h5, h6⟩ h n hr.1 hr.2
+  | minutelyByhmE =>
+    obtain ⟨hf, ⟨⟨hi, hv, hz⟩, hw, he⟩, h3, h4, h5, h6⟩ := hs
+    exact iter_eq_spec_minutely_bhm_easter
+      ⟨hf, hi, hv, hw, someWith_elim he, hz, optNonempty_elim h3, ne_none_elim h4, h5, h6⟩ h n hr.1 hr.2
+  | secondlyE =>
+    obtain ⟨hf, ⟨⟨hi, hv, hz⟩, hw, he⟩, h3, h4, h5⟩ := hs
+    exact iter_eq_spec_secondly_easter ⟨hf, hi, hv, hw, someWith_elim he, hz, h3, h4, h5⟩ h n hr.1 hr.2
+  | secondlyByhmE =>
+    obtain ⟨hf, ⟨⟨hi, hv, hz⟩, hw, he⟩, h3, h4, h5, h6⟩ := hs
+    exact iter_eq_spec_secondly_bhm_easter
+      ⟨hf, hi, hv, hw, someWith_elim he, hz, optNonempty_elim h3, optNonempty_elim h4, h5, h6⟩ h n hr.1 hr.2
+  | secondlyBysecondE =>
+    obtain ⟨hf, ⟨⟨hi, hv, hz⟩, hw, he⟩, h3, h4, h5, h6⟩ := hs
+    exact iter_eq_spec_secondly_bysecond_easter
+      ⟨hf, hi, hv, hw, someWith_elim he, hz, optNonempty_elim h3, optNonempty_elim h4, ne_none_elim h5, h6⟩ h n hr.1 hr.2
+  | monthlyEaster =>
+    obtain ⟨hf, ⟨⟨hi, hv, hz⟩, hw, he⟩, hp⟩ := hs
+    exact ⟨n, by omega, by simp [Family.periodsPerTurn],
+      iter_eq_spec_monthly_easter ⟨hf, hi, hv, hw, hz, hp, someWith_elim he⟩ h n hr.1 hr.2⟩
+  | weeklyEaster =>
+    obtain ⟨hf, ⟨hi, hv, hz⟩, hw, he, h3, h4, h5⟩ := hs
+    exact ⟨n, by omega, by simp [Family.periodsPerTurn],
+      iter_eq_spec_weekly_easter ⟨hf, hi, hv, hw, hz, someWith_elim he, h3, h4, untilOk_elim h5⟩ h n hr.1 hr.2⟩
+  | monthlyNthWeekno =>
+    obtain ⟨hf, ⟨hi, hv, hz⟩, he, hn, hw, hwn⟩ := hs
+    obtain ⟨wl, hwl, hne, hok⟩ := someWith_elim hwn
+    exact ⟨n, by omega, by simp [Family.periodsPerTurn],
+      iter_eq_spec_monthly_nth_weekno ⟨hf, hi, hv, hw, he, hz, someWith_elim hn, ⟨wl, hwl, hne, ⟨hok.1, hok.2⟩⟩⟩ h n hr⟩
+  | yearlyNthWeekno =>
+    obtain ⟨hf, ⟨hi, hv, hz⟩, he, hm, hn, hw, hwn⟩ := hs
+    obtain ⟨wl, hwl, hne, hok⟩ := someWith_elim hwn
+    exact ⟨n, by omega, by simp [Family.periodsPerTurn],
+      iter_eq_spec_yearly_nth_weekno ⟨hf, hi, hv, hw, he, hz, hm, someWith_elim hn, ⟨wl, hwl, hne, ⟨hok.1, hok.2⟩⟩⟩ h n hr⟩
+  | yearlyBymonthNthWeekno =>
+    obtain ⟨hf, ⟨hi, hv, hz⟩, he, hm, hn, hw, hwn⟩ := hs
+    obtain ⟨wl, hwl, hne, hok⟩ := someWith_elim hwn
+    exact ⟨n, by omega, by simp [Family.periodsPerTurn],
+      iter_eq_spec_yearly_bymonth_nth_weekno
+        ⟨hf, hi, hv, hw, he, hz, someWith_elim hm, someWith_elim hn, ⟨wl, hwl, hne, ⟨hok.1, hok.2⟩⟩⟩ h n hr⟩
+  | monthlyNthEaster =>
+    obtain ⟨hf, ⟨⟨hi, hv, hz⟩, hw, he⟩, hn⟩ := hs
+    exact ⟨n, by omega, by simp [Family.periodsPerTurn],
+      iter_eq_spec_monthly_nth_easter ⟨hf, hi, hv, hw, hz, someWith_elim hn, someWith_elim he⟩ h n hr.1 hr.2⟩
+  | yearlyNthEaster =>
+    obtain ⟨hf, ⟨⟨hi, hv, hz⟩, hw, he⟩, hm, hn⟩ := hs
+    exact ⟨n, by omega, by simp [Family.periodsPerTurn],
+      iter_eq_spec_yearly_nth_easter ⟨hf, hi, hv, hw, hz, hm, someWith_elim hn, someWith_elim he⟩ h n hr.1 hr.2⟩
+  | yearlyBymonthNthEaster =>
+    obtain ⟨hf, ⟨⟨hi, hv, hz⟩, hw, he⟩, hm, hn⟩ := hs
+    exact ⟨n, by omega, by simp [Family.periodsPerTurn],
+      iter_eq_spec_yearly_bymonth_nth_easter
+        ⟨hf, hi, hv, hw, hz, someWith_elim hm, someWith_elim hn, someWith_elim he⟩ h n hr.1 hr.2⟩
+  | yearlyWeeknoEaster =>
+    obtain ⟨hf, ⟨hi, hv, hz⟩, hp, hw, hwn, he⟩ := hs
+    obtain ⟨wl, hwl, hne, hok⟩ := someWith_elim hwn
+    exact ⟨n, by omega, by simp [Family.periodsPerTurn],
+      iter_eq_spec_yearly_weekno_easter
+        ⟨hf, hi, hv, hw, hz, hp, ⟨wl, hwl, hne, ⟨hok.1, hok.2⟩⟩, someWith_elim he⟩ h n hr.1 hr.2⟩
 
 end RRule
